@@ -98,14 +98,16 @@ def limit_cases(seed, tier):
                     cases.append(((cid, cfg, ops), dict(kind='line', where=where, dir=d, tag=tag, hard=H, line_len=target_len, chunking=ck)))
                     cid += 1
     # folded / repeated floods and max_tx
-    for k in (10, 70, 200) if tier == 'quick' else (10, 64, 65, 66, 70, 200, 1000):
-        rep = ''.join('X-R: v%d\r\n' % i for i in range(k))
-        req = ('GET / HTTP/1.1\r\nHost: h\r\n' + rep + '\r\n').encode()
-        res = ('HTTP/1.1 200 OK\r\n' + rep + 'Content-Length: 0\r\n\r\n').encode()
-        for ck in ('whole', 'random'):
-            ops = [(REQ, c) for c in chunks(req, ck, r)] + [(RES, c) for c in chunks(res, ck, r)] + [(CLOSE, None)]
-            cases.append(((cid, {'DUMP': hxb.DUMP_TX}, ops), dict(kind='repeat', k=k)))
-            cid += 1
+    # the cap on repeated lines holds for every field name, also for those that are commonly repeated on purpose
+    for name in ('X-R', 'Set-Cookie', 'Cookie', 'Via', 'Accept', 'Warning', 'WWW-Authenticate', 'Cache-Control', 'set-cookie', 'Link'):
+        for k in ((10, 70, 200) if name == 'X-R' else (200,)) if tier == 'quick' else (10, 64, 65, 66, 70, 200, 1000):
+            rep = ''.join('%s: v%d\r\n' % (name, i) for i in range(k))
+            req = ('GET / HTTP/1.1\r\nHost: h\r\n' + rep + '\r\n').encode()
+            res = ('HTTP/1.1 200 OK\r\n' + rep + 'Content-Length: 0\r\n\r\n').encode()
+            for ck in ('whole', 'random'):
+                ops = [(REQ, c) for c in chunks(req, ck, r)] + [(RES, c) for c in chunks(res, ck, r)] + [(CLOSE, None)]
+                cases.append(((cid, {'DUMP': hxb.DUMP_TX, 'PARSE_COOKIES': 0}, ops), dict(kind='repeat', k=k, name=name)))
+                cid += 1
     for k, piece in ((50, 3000), (300, 500), (3000, 50)) if tier == 'quick' else ((50, 3000), (120, 1000), (300, 500), (3000, 50), (30000, 5)):
         fold = 'X-F: start\r\n' + ''.join(' ' + 'b' * piece + '\r\n' for _ in range(k))
         req = ('GET / HTTP/1.1\r\nHost: h\r\n' + fold + '\r\n').encode()
@@ -159,7 +161,7 @@ def judge_limit(d, exp):
                 if rep > 64:
                     errs.append(('repetition_counter', 'repetition counter %d > 64' % rep))
                 for h in hs:
-                    if h and h[0] == 'X-R':
+                    if h and h[0] == exp.get('name', 'X-R'):
                         pieces = h[1].count(', ') + 1
                         if pieces > 64 + 2:
                             errs.append(('repetition_cap', '%d merged pieces in one field (cap 64 + first two)' % pieces))
